@@ -270,17 +270,117 @@ pub fn strategy() -> impl Strategy<Value = Case> {
     proptest::collection::vec(any::<u32>(), 8..260).prop_map(|entropy| Case { entropy })
 }
 
+// ------------------------------------------------------------------------------------------------ across files
+
+/// Two-file projects (as in C15): every occurrence of a library symbol, in both files, must lead to its definition in
+/// the library, and find-references from any of them must list exactly all of them.
+pub fn prop_multi(c: &crate::props::c15::MultiCase, log: &mut CaseLog) -> Verdict {
+    use crate::props::c15::{multi_project, word_occurrences};
+    use std::collections::BTreeSet;
+    let proj = multi_project(c);
+    let name = if c.symbol % 2 == 0 { "libk1" } else { "libl0" };
+    let mut occ: Vec<(String, (u64, u64, u64))> = vec![];
+    for (f, t) in &proj.files {
+        for o in word_occurrences(t, name) {
+            occ.push((f.clone(), o));
+        }
+    }
+    // the definition is the first occurrence in lib.asm
+    let def = occ.iter().find(|(f, _)| f == "lib.asm").cloned().unwrap();
+    let coincide = occ.iter().any(|(f, o)| occ.iter().any(|(g, q)| f != g && o == q));
+    log.label_if(coincide, "same-range-in-both-files");
+    log.label(format!("import-kind:{}", c.import_kind % 4));
+    log.nontrivial = true;
+    let sc = crate::sut::cli::Scratch::new("c16m");
+    sc.write("mos.toml", b"[build]\nentry = \"main.asm\"\n");
+    for (f, t) in &proj.files {
+        sc.write(f, t.as_bytes());
+    }
+    let mut client = match crate::sut::lsp::LspClient::start(&sc.dir) {
+        Ok(c) => c,
+        Err(_) => {
+            log.label("inconclusive");
+            return Verdict::Pass;
+        }
+    };
+    let t = std::time::Duration::from_secs(20);
+    let uri_of = |f: &str| crate::sut::lsp::file_uri(&sc.dir, f);
+    client.did_open(&uri_of("main.asm"), &proj.files["main.asm"]);
+    client.did_open(&uri_of("lib.asm"), &proj.files["lib.asm"]);
+    let describe = |what: &str| format!("{}\n--- main.asm ---\n{}\n--- lib.asm ---\n{}\nsymbol `{}`, occurrences {:?}", what, proj.files["main.asm"], proj.files["lib.asm"], name, occ);
+    let file_of = |u: &str| proj.files.keys().find(|f| u.ends_with(&format!("/{}", f))).cloned();
+    let want_all: BTreeSet<(String, (u64, u64, u64))> = occ.iter().cloned().collect();
+    let run = (|| -> Result<Verdict, crate::sut::lsp::LspErr> {
+        for (f, o) in &occ {
+            let pos = json!({"line": o.0, "character": o.1 + 1});
+            // definition
+            let r = client.request("textDocument/definition", json!({"textDocument": {"uri": uri_of(f)}, "position": pos}), t)?;
+            let got: Vec<(Option<String>, (u64, u64, u64))> = r
+                .as_array()
+                .cloned()
+                .unwrap_or_default()
+                .iter()
+                .map(|l| {
+                    let rg = &l["targetSelectionRange"];
+                    (file_of(l["targetUri"].as_str().unwrap_or("")), (rg["start"]["line"].as_u64().unwrap_or(9999), rg["start"]["character"].as_u64().unwrap_or(9999), rg["end"]["character"].as_u64().unwrap_or(9999)))
+                })
+                .collect();
+            if got != vec![(Some(def.0.clone()), def.1)] {
+                return Ok(Verdict::fail("definition-elsewhere|multi-file", describe(&format!("definition requested at {}:{}:{} -> {:?}, expected {:?}", f, o.0, o.1 + 1, got, def))));
+            }
+            // references, with declaration
+            let r = client.request("textDocument/references", json!({"textDocument": {"uri": uri_of(f)}, "position": pos, "context": {"includeDeclaration": true}}), t)?;
+            let got: BTreeSet<(String, (u64, u64, u64))> = r
+                .as_array()
+                .cloned()
+                .unwrap_or_default()
+                .iter()
+                .filter_map(|l| {
+                    let rg = &l["range"];
+                    Some((file_of(l["uri"].as_str()?)?, (rg["start"]["line"].as_u64()?, rg["start"]["character"].as_u64()?, rg["end"]["character"].as_u64()?)))
+                })
+                .collect();
+            if got != want_all {
+                let missing: Vec<_> = want_all.difference(&got).collect();
+                let extra: Vec<_> = got.difference(&want_all).collect();
+                return Ok(Verdict::fail("references-differ|multi-file", describe(&format!("references requested at {}:{}:{}: missing {:?}, unexpected {:?}", f, o.0, o.1 + 1, missing, extra))));
+            }
+        }
+        Ok(Verdict::Pass)
+    })();
+    match run {
+        Ok(v) => v,
+        Err(crate::sut::lsp::LspErr::Timeout) => {
+            log.label("inconclusive");
+            Verdict::Pass
+        }
+        Err(crate::sut::lsp::LspErr::Died(st, tail)) => Verdict::fail(format!("server-died|{}", st), describe(&tail)),
+        Err(crate::sut::lsp::LspErr::Error(e)) => Verdict::fail("error-response|multi-file", describe(&e.to_string())),
+    }
+}
+
 pub fn run_check(ctx: &mut Ctx) {
-    ctx.rule = "error-free generator programs (shadowed names in nested scopes, dotted and `super` paths, macros with parameters, loops, untaken branches, string interpolation) that assemble and agree byte-for-byte with the reference layout model (so the model's binding is the one the build used); for every path component of every identifier use: textDocument/definition must return exactly the range of the definition the documented scoping rule binds it to; for every label/constant/variable definition: textDocument/references (with and without declaration) and documentHighlight must return exactly the set of occurrences bound to it. non-trivial = program with >= 3 identifier uses".into();
+    ctx.rule = "error-free generator programs (shadowed names in nested scopes, dotted and `super` paths, macros with parameters, loops, untaken branches, string interpolation) that assemble and agree byte-for-byte with the reference layout model (so the model's binding is the one the build used); for every path component of every identifier use: textDocument/definition must return exactly the range of the definition the documented scoping rule binds it to; for every label/constant/variable definition: textDocument/references (with and without declaration) and documentHighlight must return exactly the set of occurrences bound to it. non-trivial = program with >= 3 identifier uses. second campaign: two-file projects (main imports lib with `*`, `* as ns` or a specific list): from every occurrence of a library symbol, in both files, definition must lead to the library and references must list exactly all whole-word occurrences in both files".into();
     if !have_mos() {
         ctx.health(false, "mos binary not built (MOS_BIN)");
         return;
     }
     let n = ctx.tier.pick(6400, 160_000);
     ctx.campaign_parallel("all-occurrences", n, 16, strategy, prop, to_json);
+    let n = ctx.tier.pick(400, 4_000);
+    ctx.campaign_parallel("across-files", n, 16, crate::props::c15::multi_strategy, prop_multi, crate::props::c15::multi_to_json);
+    let k = ctx.label_count("same-range-in-both-files");
+    ctx.health(k > 0, "no case with an occurrence at the same range in both files");
 }
 
 pub fn replay(ctx: &mut Ctx, case: &Value) {
+    if let Some(m) = case.get("multi") {
+        match serde_json::from_value::<crate::props::c15::MultiCase>(m.clone()) {
+            Ok(c) => ctx.replay_one(&c, prop_multi, case.clone()),
+            Err(e) => ctx.health(false, format!("replay case does not deserialize: {}", e)),
+        }
+        return;
+    }
     let c: Case = match serde_json::from_value(json!({"entropy": case["entropy"]})) {
         Ok(c) => c,
         Err(e) => {
